@@ -141,6 +141,7 @@ const concAllGpos = concGposDesc + `
 	GPOS8: A | V W | A -> 1@0, B | C D E | F -> 0@2
 	GPOS7: "QQQQQQQQ" -> 8@0 8@1 8@2 8@3 8@4 8@5 8@6 8@7 8@0
 	GPOS7: Q -> 0@0 0@0 0@0 0@0 0@0 0@0 0@0 0@0 0@0
+	GPOS2: A V -> dx-100, T E -> y+100 dx-50 & y-100, V A -> dx-90 & x+5, O T -> dx-10
 `
 
 // concAddAll installs the synthetic layout tables.  extra adds what the builder language (and
@@ -203,7 +204,58 @@ func concAddAll(f *sfnt.Font, level int) {
 		}
 		gs[1].Meta.LookupFlags |= gtab.UseMarkFilteringSet
 		gs[1].Meta.MarkFilteringSet = 0
-		if level >= 2 { // Gpos5_1 has no encoder: Write panics "not implemented" on this font
+		if level >= 3 {
+			// for every pointer / slice field of the subtable types: nil in some entries, set in others
+			vr := func(xp, yp, xa int) *gtab.GposValueRecord {
+				return &gtab.GposValueRecord{XPlacement: funit.Int16(xp), YPlacement: funit.Int16(yp), XAdvance: funit.Int16(xa)}
+			}
+			gp = append(gp,
+				&gtab.LookupTable{Meta: &gtab.LookupMetaInfo{LookupType: 2}, Subtables: []gtab.Subtable{gtab.Gpos2_1{
+					{Left: g('A'), Right: g('V')}: {First: vr(0, 0, -100)},
+					{Left: g('V'), Right: g('A')}: {First: vr(0, 0, -90), Second: vr(5, 0, 0)},
+					{Left: g('T'), Right: g('O')}: {Second: vr(0, 7, 0)},
+					{Left: g('A'), Right: g('W')}: {First: vr(0, 0, -80)},
+				}}},
+				&gtab.LookupTable{Meta: &gtab.LookupMetaInfo{LookupType: 1}, Subtables: []gtab.Subtable{&gtab.Gpos1_2{
+					Cov:    coverage.Table{g('D'): 0, g('E'): 1, g('F'): 2},
+					Adjust: []*gtab.GposValueRecord{vr(0, 0, 3), nil, vr(0, 2, 0)},
+				}}},
+				&gtab.LookupTable{Meta: &gtab.LookupMetaInfo{LookupType: 2}, Subtables: []gtab.Subtable{&gtab.Gpos2_2{
+					Cov:    coverage.Set{g('A'): true, g('B'): true, g('C'): true},
+					Class1: classdef.Table{g('A'): 1, g('B'): 1},
+					Class2: classdef.Table{g('V'): 1, g('W'): 2},
+					Adjust: [][]*gtab.PairAdjust{
+						{{}, {}, {First: vr(0, 0, -5)}},
+						{{}, {First: vr(0, 0, -40)}, {First: vr(0, 0, -30), Second: vr(2, 0, 0)}},
+					},
+				}}},
+				&gtab.LookupTable{Meta: &gtab.LookupMetaInfo{LookupType: 4}, Subtables: []gtab.Subtable{&gtab.Gpos4_1{
+					MarkCov:   coverage.Table{g('M'): 0, g('N'): 1},
+					BaseCov:   coverage.Table{g('A'): 0, g('B'): 1},
+					MarkArray: []markarray.Record{{Class: 0}, {Class: 1, Table: anchor.Table{X: 30, Y: 40}}},
+					BaseArray: [][]anchor.Table{{{}, {X: 300, Y: 700}}, {{X: 310, Y: 710}, {}}},
+				}}})
+			gs = append(gs,
+				&gtab.LookupTable{Meta: &gtab.LookupMetaInfo{LookupType: 2}, Subtables: []gtab.Subtable{&gtab.Gsub2_1{
+					Cov:  coverage.Table{g('R'): 0, g('S'): 1, g('U'): 2},
+					Repl: [][]glyph.ID{{g('X'), g('Y')}, {g('Z')}, {g('U'), g('U'), g('U')}},
+				}}},
+				&gtab.LookupTable{Meta: &gtab.LookupMetaInfo{LookupType: 4}, Subtables: []gtab.Subtable{&gtab.Gsub4_1{
+					Cov: coverage.Table{g('W'): 0, g('X'): 1},
+					Repl: [][]gtab.Ligature{
+						{{In: nil, Out: g('V')}},
+						{{In: []glyph.ID{g('Y'), g('Z')}, Out: g('A')}, {In: []glyph.ID{}, Out: g('B')}},
+					},
+				}}},
+				&gtab.LookupTable{Meta: &gtab.LookupMetaInfo{LookupType: 5}, Subtables: []gtab.Subtable{&gtab.SeqContext1{
+					Cov: coverage.Table{g('J'): 0, g('P'): 1},
+					Rules: [][]*gtab.SeqRule{
+						{{Input: []glyph.ID{g('J')}, Actions: nil}, {Input: nil, Actions: []gtab.SeqLookup{{SequenceIndex: 0, LookupListIndex: 9}}}},
+						{{Input: []glyph.ID{g('P'), g('P')}, Actions: []gtab.SeqLookup{{SequenceIndex: 2, LookupListIndex: 0}, {SequenceIndex: 0, LookupListIndex: 9}}}},
+					},
+				}}})
+		}
+		if level == 2 { // Gpos5_1 has no encoder: Write panics "not implemented" on this font
 			gp = append(gp, gpos5)
 		}
 	}
@@ -315,7 +367,7 @@ var concNameFonts = []string{"sttf", "sttfdup", "sttfempty", "sttfnotdef0", "stt
 var concRawFonts = []string{"sttf+img", "sttf+imgj", "sttf+odd", "ttf+img", "ttf+odd", "sttfnest+img"}
 
 // concLayoutFonts: synthetic layout tables covering every subtable type (see concAddAll).
-var concLayoutFonts = []string{"cffall", "cffallx", "cffall5", "sttfall", "sttfallx", "cffsub", "sttfsub"}
+var concLayoutFonts = []string{"cffall", "cffallx", "cffall5", "cffalln", "sttfall", "sttfallx", "sttfalln", "cffsub", "sttfsub"}
 
 // concSubGsub / concSubGpos: only the lookup types Subset implements (GSUB 1.1 and 4.1, GPOS
 // pair format 2.1 — GPOS 1 subsets cannot be written), so that Subset runs through and rewrites whole ligature rules.
@@ -327,6 +379,7 @@ const concSubGsub = `
 const concSubGpos = `
 	GPOS2: A V -> dx-100, O O -> dx+100, "AW" -> dx-100
 	GPOS2: T E -> y+100 dx-50 & y-100
+	GPOS2: A V -> dx-100, T E -> y+100 dx-50 & y-100, V A -> dx-90 & x+5, O T -> dx-10
 `
 
 func concAddSub(f *sfnt.Font) {
@@ -346,7 +399,7 @@ func concAddSub(f *sfnt.Font) {
 	}
 	f.Gpos = &gtab.Info{
 		ScriptList:  map[language.Tag]*gtab.Features{und: {Required: 0}},
-		FeatureList: []*gtab.Feature{{Tag: "kern", Lookups: []gtab.LookupIndex{0, 1}}},
+		FeatureList: []*gtab.Feature{{Tag: "kern", Lookups: []gtab.LookupIndex{0, 1, 2}}},
 		LookupList:  gp,
 	}
 	f.Gdef = nil
@@ -658,10 +711,12 @@ func concFontRaw(id string) *sfnt.Font {
 			concAddAll(f, 0)
 		case "sttfallx":
 			concAddAll(f, 1)
+		case "sttfalln":
+			concAddAll(f, 3)
 		default:
 			panic("unknown font id " + id)
 		}
-	case id == "cffdup", id == "cffempty", id == "cffnotdef0", id == "cidmulti", id == "cff12", id == "cffall", id == "cffallx", id == "cffall5", id == "cffsub":
+	case id == "cffdup", id == "cffempty", id == "cffnotdef0", id == "cidmulti", id == "cff12", id == "cffall", id == "cffallx", id == "cffall5", id == "cffalln", id == "cffsub":
 		f = debug.MakeSimpleFont()
 		f.CreationTime, f.ModificationTime = concFixedTime, concFixedTime
 		o := f.Outlines.(*cff.Outlines)
@@ -684,6 +739,8 @@ func concFontRaw(id string) *sfnt.Font {
 			concAddSub(f)
 		case "cffall5":
 			concAddAll(f, 2)
+		case "cffalln":
+			concAddAll(f, 3)
 		case "cffall":
 			concAddAll(f, 0)
 		case "cffallx":
@@ -792,7 +849,7 @@ func (r *concRng) intn(n int) int { return int(r.next() % uint64(n)) }
 // concTriggers are texts that make particular lookups of the synthetic tables fire: ligatures,
 // unsorted alternates, (chained) contexts of all formats, reverse chaining, mark attachment, and
 // the recursion that exhausts the budget of 64 nested actions.
-var concTriggers = []string{"QQQQQQQQ", "QQQQQQQQQQQQQQQQQ", "FI", "FL", "AAA", "AAB", "AE", "BCDEF", "ABCDEF", "ABCL",
+var concTriggers = []string{"AVA", "VAVTOAW", "DEF", "AVBW", "RSU", "WXYZX", "JJPPP", "AMBN", "QQQQQQQQ", "QQQQQQQQQQQQQQQQQ", "FI", "FL", "AAA", "AAB", "AE", "BCDEF", "ABCDEF", "ABCL",
 	"AV", "OO", "TE", "AVWA", "KM", "LN", "KMN", "NM", "AGIJ", "BHIK", "ABC", "BM", "AMAMA", "DEFAGHI"}
 
 // concStale: sequences for one reused layouter — a long text first, then shorter and equally long
@@ -1585,7 +1642,7 @@ func areaConc(c *Ctx) {
 		}
 	}
 	for _, id := range concLayoutFonts {
-		for _, op := range []string{"explaingsub", "explaingpos", "layout", "gtabapply", "subset", "write", "findlookups"} {
+		for _, op := range []string{"write", "explaingsub", "explaingpos", "layout", "gtabapply", "subset", "writepdf", "findlookups"} {
 			pure(op, id)
 			i++
 		}
@@ -1600,9 +1657,9 @@ func areaConc(c *Ctx) {
 		i++
 	}
 	// completeness of the snapshot itself (a planted write in every slice/map must change the hash)
-	self := []string{"cffallx", "cffall5", "cffsub", "cid"}
+	self := []string{"cffalln", "cffall5", "cffsub", "cid"}
 	if thorough {
-		self = append(self, "sttfsub", "sttfallx", "cidmulti", "cffgtab")
+		self = append(self, "sttfsub", "sttfalln", "cidmulti", "cffgtab", "cffallx")
 	}
 	for _, id := range self {
 		c.Stat("selftest.result", strings.SplitN(c.Case(Verdict, "conc.selftest", "font="+id, true), ":", 2)[0])
